@@ -26,8 +26,9 @@ esac
 RUNS="${VERIF_FUZZ_RUNS:-20000000}"
 # the program target interprets up to 48 API calls per input: a smaller fixed budget
 [ "$ID" = C01 ] && RUNS="${VERIF_FUZZ_RUNS:-3000000}"
-# whole-property targets whose cases include long iterator sums / 384-bit references (~500 exec/s)
-case "$ID" in C03|C10) RUNS="${VERIF_FUZZ_RUNS:-1600000}";; C13) RUNS="${VERIF_FUZZ_RUNS:-4000000}";; esac
+# whole-property targets (several sub-checks behind one entry; sub-checks with long cases are left
+# to the proptest runner, see fuzzing.rs): about 10^4 executions per second
+case "$ID" in C03|C10|C13) RUNS="${VERIF_FUZZ_RUNS:-10000000}";; esac
 export CARGO_NET_OFFLINE=true VERIF_DIR="$VERIF"
 [ "$SEED" = 0 ] && SEED=1
 rc=0
